@@ -10,6 +10,7 @@ import (
 	"bytes"
 	"crypto/sha256"
 	"encoding/binary"
+	"encoding/hex"
 	"fmt"
 	"os"
 	"path/filepath"
@@ -805,6 +806,58 @@ func (e *WEnv) BindingHistory(w string, excl bool, pending bool) string {
 			h.BlockHeight, sp, holder, tgt))
 	}
 	return joinSorted(items)
+}
+
+// WithdrawSeq builds (does not sign) a draft spending exactly coin "T:idx" of wallet w through
+// CreateRawTransaction with the given lock time and reports the sequence value of its input.
+func (e *WEnv) WithdrawSeq(w, coin string, lockTime uint64) string {
+	if err := e.Use(w); err != nil {
+		return "err"
+	}
+	p := strings.Split(coin, ":")
+	if len(p) != 2 {
+		return "bad-op"
+	}
+	ti, ok := e.txs[p[0]]
+	if !ok {
+		return "bad-op"
+	}
+	idx, err := strconv.ParseUint(p[1], 10, 32)
+	if err != nil || int(idx) >= len(ti.msg.TxOut) {
+		return "bad-op"
+	}
+	var dest string
+	for _, ai := range e.addrs {
+		if ai.wallet == w && ai.class == "std" && (dest == "" || ai.name < dest) {
+			dest = ai.name
+		}
+	}
+	if dest == "" {
+		return "err"
+	}
+	half, err := massutil.NewAmountFromInt(ti.msg.TxOut[idx].Value / 2)
+	if err != nil {
+		return "err"
+	}
+	hexTx, _, err := e.wm.CreateRawTransaction([]*masswallet.TxIn{{TxId: ti.hash.String(), Vout: uint32(idx)}},
+		map[string]massutil.Amount{e.addrs[dest].enc: half}, lockTime, "", nil)
+	if err != nil {
+		return errTok(err)
+	}
+	raw, err := hex.DecodeString(hexTx)
+	if err != nil {
+		return "err"
+	}
+	var mtx wire.MsgTx
+	if err := mtx.SetBytes(raw, wire.Packet); err != nil {
+		return "err"
+	}
+	// the draft's reservation is not part of this observation
+	e.wm.ClearUsedUTXOMark(&mtx)
+	if len(mtx.TxIn) != 1 {
+		return "err"
+	}
+	return fmt.Sprintf("seq %d", mtx.TxIn[0].Sequence)
 }
 
 // HistSbu: deposits (staking and binding, mined, not withdrawn) flagged spent-by-unconfirmed.
